@@ -487,9 +487,18 @@ class WsgiApplication(HttpBase):
 
     def __handle_rpc(self, initial_ctx, open_ctx, req_env, start_response):
         # a request that says it's too long is refused right away, whether or
-        # not the protocol gets to look at its body.
-        if self.__get_declared_length(req_env) > self.max_content_length:
-            initial_ctx.in_error = initial_ctx.out_error = RequestTooLongError()
+        # not the protocol gets to look at its body. so is one that does not
+        # say anything sensible about its length.
+        try:
+            length_error = None
+            if self.__get_declared_length(req_env) > self.max_content_length:
+                length_error = RequestTooLongError()
+
+        except ValueError:
+            length_error = Fault('Client.BadRequest', "Invalid Content-Length")
+
+        if length_error is not None:
+            initial_ctx.in_error = initial_ctx.out_error = length_error
             initial_ctx.fire_event('method_exception_object')
             return self.handle_error(initial_ctx, (), initial_ctx.in_error,
                                                                  start_response)
